@@ -24,7 +24,7 @@ func main() {
 	oxh.Quiet()
 	kv.VerifMemTableSize = 1 << 20
 	kv.VerifNoAutoCompactions = true
-	keep := map[string]bool{"truncate-with-wrong-term": true, "truncate-to-entry-follower-does-not-hold": true, "append-with-wrong-term": true,
+	keep := map[string]bool{"truncate-with-wrong-term": true, "truncate-to-entry-follower-does-not-hold": true, "truncate-to-entry-follower-does-not-hold:entry-of-a-term-the-leader-sat-out": true, "append-with-wrong-term": true,
 		"resent-entry-differs": true, "append-gap": true, "snapshot-with-wrong-term": true, "snapshot-unusable": true, "follower-not-caught-up": true,
 		"follower-log-diverges": true, "become-leader-stuck": true, "become-leader-failed": true, "harness-setup": true, "panic": true}
 	su := sched.Suite{Property: "C03", Stage2: os.Getenv("VERIF_STAGE2") != "",
